@@ -48,6 +48,34 @@ package buildtag
 //@   modifies g_evals, g_eval_result
 //@   property C24
 
+// ---- printing. bt_str(e) is the text of constraint tree e, DEFINED by the four equations below: a tag
+// prints as itself; !X prints "!" and X, with X in parentheses exactly when X is a && or || node; X && Y
+// parenthesises || operands; X || Y parenthesises && operands (the discipline of go/build/constraint,
+// which is what makes Parse(e.String()) rebuild e: an operand is never printed bare where the grammar
+// would re-associate it). Each String method is proved to compute its equation.
+//@ spec (declare-fun bt_str (Int Int) Str)
+//@ spec bt_paren(s string) string := "(" + s + ")"
+//@ iface Expr.String
+//@   ensures result == bt_str(recv)
+//@   pure
+
+//@ func (*TagExpr).String
+//@   requires x != nil
+//@   ensures[text] result == x.Tag
+//@   property C24
+//@ func (*NotExpr).String
+//@   requires x != nil
+//@   ensures[text] result == "!" + ite(typeis(x.X, *AndExpr) || typeis(x.X, *OrExpr), bt_paren(bt_str(x.X)), bt_str(x.X))
+//@   property C24
+//@ func (*AndExpr).String
+//@   requires x != nil
+//@   ensures[text] result == ite(typeis(x.X, *OrExpr), bt_paren(bt_str(x.X)), bt_str(x.X)) + " && " + ite(typeis(x.Y, *OrExpr), bt_paren(bt_str(x.Y)), bt_str(x.Y))
+//@   property C24
+//@ func (*OrExpr).String
+//@   requires x != nil
+//@   ensures[text] result == ite(typeis(x.X, *AndExpr), bt_paren(bt_str(x.X)), bt_str(x.X)) + " || " + ite(typeis(x.Y, *AndExpr), bt_paren(bt_str(x.Y)), bt_str(x.Y))
+//@   property C24
+
 //@ func Parse
 //@   trusted
 //@ func IsWaBuild
